@@ -14,7 +14,40 @@ RULE = ('random programs whose bodies use call/1..N (extra arguments), once/1, f
         'solution, and some query has an answer.')
 TRUSTED_BASE = []
 
-N_FIRST = {'quick': 40, 'thorough': 1000}
+N_FIRST = {'quick': 40, 'thorough': 600}
+N_BAG = {'quick': 30, 'thorough': 400}
+
+def impl(case):
+    io = semcheck.impl(case)
+    if isinstance(io, dict) and 'queries' in io and 'findall' in semcheck.source_of(case):
+        # see lib/findall_diag.py: does some collected instance contain an unbound variable of the caller?
+        from lib import findall_diag
+        try:
+            for iq, f in zip(io['queries'], findall_diag.outer_flags(case)):
+                iq['findall_outer'] = f
+        except Exception:
+            pass
+    return io
+
+SLD_MSG = 'compiled-code model and SLD reference differ'
+
+def compare(case, io, mo):
+    """semcheck.compare, query by query; a difference between the two Coq semantics (compiled-code model vs the auxiliary SLD
+    reference - the implementation has already been found equal to the compiled-code model at that point) is not reported for a
+    query in which findall/3 collected an instance that contains an unbound variable of the caller (lib/findall_diag.py)"""
+    if not (isinstance(io, dict) and 'queries' in io and isinstance(mo, list) and not (mo and mo[0] == 'front-rejects')):
+        return semcheck.compare(case, io, mo)
+    idx = semcheck.compared_queries(case, io)
+    for k, qi in enumerate(idx):
+        if k >= len(mo):
+            break
+        iq = io['queries'][qi]
+        r = semcheck.compare(dict(case, queries=[case['queries'][qi]]), {'queries': [iq]}, [mo[k]])
+        if r and SLD_MSG in r and iq.get('findall_outer'):
+            continue
+        if r:
+            return r
+    return None
 
 def gen(rng, tier):
     n = 240 if tier == 'quick' else 5000
@@ -26,6 +59,9 @@ def gen(rng, tier):
     # clause-local variables that occur first in an = goal inside a scope whose bindings must be undone (lib/progs_shapes.py)
     for _ in range(N_FIRST[tier]):
         cases.append(progs_shapes.gen_first_binding_program(rng))
+    # findall/3 whose bag is already (partly) instantiated and shares variables with the goal / the instances
+    for _ in range(N_BAG[tier]):
+        cases.append(progs_shapes.gen_findall_bag_program(rng))
     return cases
 
 def builtin_corpus():
